@@ -86,7 +86,7 @@ def check(ck):
         if isinstance(n, ast.Compare) and isinstance(n.ops[0], ast.Eq) and A.const_str(n.comparators[0]) is not None \
                 and dec.nodes(n) and dec.xnorm(n.left, dec.nodes(n)[0]).endswith("['_mementoType']"):
             tags_in.add(A.const_str(n.comparators[0]))
-    ck.ob(R1, dec.key(None, "tags"), tags_out == tags_in and len(tags_out) == 3, "type tags agree: %s" % sorted(tags_out) if tags_out == tags_in else
+    ck.ob(R1, dec.key(None, "tags"), tags_out == tags_in and {"datetime", "date", "FunctionReference"} <= tags_out, "type tags agree: %s" % sorted(tags_out) if tags_out == tags_in else
           "type tags differ: encoder emits %s, decoder handles %s" % (sorted(tags_out), sorted(tags_in)), dec.where())
     keys_in = {A.const_str(n.slice) for n in A.walk_body(dec.node) if isinstance(n, ast.Subscript) and A.norm(n.value) == "arg" and A.const_str(n.slice)}
     all_out = set().union(*keys_out.values()) if keys_out else set()
@@ -95,6 +95,24 @@ def check(ck):
     # the spec keys
     spec = {"datetime": {"_mementoType", "iso8601"}, "date": {"_mementoType", "iso8601"},
             "FunctionReference": {"_mementoType", "qualifiedName", "partialArgs", "partialKwargs", "parameterNames"}}
+    # the tag key is reserved: a plain dict that carries it must not leave the encoder looking like a tagged
+    # object (it would share the argument hash of the date / reference it imitates and be decoded into it)
+    dict_ifs = [i for i in enc.stmts(ast.If) if A.isinstance_types(i.test) and "dict" in A.isinstance_types(i.test)[1]]
+    edi = enc.one(dict_ifs, "dict branch of the hash encoder")
+    tag_tests = [n.id for n in enc.cfg.nodes if n.kind == "test" and isinstance(n.ast, ast.Compare) and len(n.ast.ops) == 1
+                 and isinstance(n.ast.ops[0], (ast.In, ast.NotIn)) and A.const_str(n.ast.left) == "_mementoType" and enc.inside(n.ast, edi)]
+    plain = [r_ for r_ in enc.returns() if enc.inside(r_, edi) and r_.value is not None and not (
+        isinstance(r_.value, ast.Dict) and "_mementoType" in [A.const_str(k_) for k_ in r_.value.keys])]
+    okt = bool(tag_tests) and bool(plain)
+    for t_ in tag_tests:
+        neg = isinstance(enc.cfg.node(t_).ast.ops[0], ast.NotIn)
+        via_has_key = enc.cfg.reach([t_], edge_ok=lambda s_, d_, l_, t_=t_, neg=neg: not (s_ == t_ and l_ == ("T" if neg else "F")), include_start=False)
+        if any(i in via_has_key for r_ in plain for i in enc.nodes(r_)):
+            okt = False
+    ck.ob(R1, enc.key(edi, "tag-key-reserved"), okt,
+          "a plain dict that contains the tag key is wrapped / rejected, never passed through as it is" if okt else
+          "the dict branch of the hash encoder passes a mapping that contains '_mementoType' through unchanged: {'_mementoType': 'date', 'iso8601': ...} "
+          "gets the argument hash of the date it imitates and reaches the function as a date", enc.where(edi))
     oks = all(keys_out.get(t) == k for t, k in spec.items())
     ck.ob(R1, enc.key(None, "spec-keys"), oks, "tagged objects use the documented cross-language field names" if oks else
           "tagged-object fields deviate from the documented encoding: %s" % {t: sorted(v) for t, v in keys_out.items()}, enc.where())
